@@ -250,6 +250,36 @@ def grid_configs():
                 yield dict(n_features=2, n_samples=ns, cardinality=card, ensure_rep=er, random_values=True, low=10, high=10 + card - 1)
 
 
+def same_instance_seq(c, seed):
+    """the data sets one generator object (and a second, pre-used one) returns for configuration c after other use"""
+    # non-initial states: the same generator instance called again (after other use of the global random state, and after another seed)
+    inst = gen_cls()()
+    seq = []
+    for step in range(3):
+        okk, Xk = safe(call_generate, c, inst)
+        seq.append(Xk if okk else None)
+        np.random.random(3)
+        if step == 1:
+            safe(call_generate, dict(c, seed=seed + 1), inst)
+        if step == 0:
+            # the same object generates a data set over ANOTHER domain of the same size in between (shifted bounds, other value list)
+            other = dict(c, low=c.get('low', 0) + 7, high=c.get('high', 1000) + 7)
+            if other.get('structure'):
+                other['structure'] = [[e[0], ([v + 13 for v in e[1]] if isinstance(e[1], list) and not isinstance(e[1][0], list) else e[1])] for e in other['structure']]
+            safe(call_generate, other, inst)
+            if not c.get('structure') and not c.get('random_values') and c['cardinality'] >= 2:
+                # ... and one over value lists of the same LENGTH but another spacing
+                spaced = dict(c, structure=[[list(range(c['n_features'])), [v * 37 for v in range(c['cardinality'])]]])
+                safe(call_generate, spaced, inst)
+    if not c.get('structure') and not c.get('random_values') and c['cardinality'] >= 2:
+        # a generator object that FIRST produced a data set over value lists of the same length but another spacing
+        inst2 = gen_cls()()
+        safe(call_generate, dict(c, structure=[[list(range(c['n_features'])), [v * 37 for v in range(c['cardinality'])]]]), inst2)
+        okk, Xk = safe(call_generate, c, inst2)
+        seq.append(Xk if okk else None)
+    return seq
+
+
 def _grid_job(job):
     seeds, lo, hi = job
     st = Stats()
@@ -270,31 +300,7 @@ def _grid_job(job):
             ok2, X2 = safe(call_generate, c)
             if not ok2 or not np.array_equal(X, X2):
                 st.violation({'kind': 'grid', 'cfg': c}, f'same seed and arguments gave a different data set ({c})', {'kind': 'not_reproducible'})
-            # non-initial states: the same generator instance called again (after other use of the global random state, and after another seed)
-            inst = gen_cls()()
-            seq = []
-            for step in range(3):
-                okk, Xk = safe(call_generate, c, inst)
-                seq.append(Xk if okk else None)
-                np.random.random(3)
-                if step == 1:
-                    safe(call_generate, dict(c, seed=seed + 1), inst)
-                if step == 0:
-                    # the same object generates a data set over ANOTHER domain of the same size in between (shifted bounds, other value list)
-                    other = dict(c, low=c.get('low', 0) + 7, high=c.get('high', 1000) + 7)
-                    if other.get('structure'):
-                        other['structure'] = [[e[0], ([v + 13 for v in e[1]] if isinstance(e[1], list) and not isinstance(e[1][0], list) else e[1])] for e in other['structure']]
-                    safe(call_generate, other, inst)
-                    if not c.get('structure') and not c.get('random_values') and c['cardinality'] >= 2:
-                        # ... and one over value lists of the same LENGTH but another spacing
-                        spaced = dict(c, structure=[[list(range(c['n_features'])), [v * 37 for v in range(c['cardinality'])]]])
-                        safe(call_generate, spaced, inst)
-            if not c.get('structure') and not c.get('random_values') and c['cardinality'] >= 2:
-                # a generator object that FIRST produced a data set over value lists of the same length but another spacing
-                inst2 = gen_cls()()
-                safe(call_generate, dict(c, structure=[[list(range(c['n_features'])), [v * 37 for v in range(c['cardinality'])]]]), inst2)
-                okk, Xk = safe(call_generate, c, inst2)
-                seq.append(Xk if okk else None)
+            seq = same_instance_seq(c, seed)
             if any(x is None or not np.array_equal(x, X) for x in seq):
                 st.violation({'kind': 'grid', 'cfg': c, 'same_instance': True}, f'repeated generate_data calls on one generator instance with the same seed and arguments differ from the first data set ({c})',
                              {'kind': 'not_reproducible_same_instance'})
@@ -399,6 +405,9 @@ def eval_case(case):
         ok, X = safe(call_generate, case['cfg'])
         if not ok:
             return [f'raised {X}']
+        if case.get('same_instance'):
+            seq = same_instance_seq(case['cfg'], case['cfg']['seed'])
+            return ['repeated generate_data calls on one generator instance with the same seed and arguments differ from the first data set'] if any(x is None or not np.array_equal(x, X) for x in seq) else []
         return [m for _, m in judge_array(case['cfg'], X)]
     st = _naive_job(case['seed'])
     return [v['what'] for v in st.violations]
